@@ -98,13 +98,14 @@ static SESSION_ID: AtomicU32 = AtomicU32::new(0);
 pub async fn h11c_handshake<FrameFn, T2>(
     ctx: ContextRef,
     queue: Sender<ContextRef>,
+    udp_timeout: u64,
     create_frames: FrameFn,
 ) -> Result<(), Error>
 where
     FrameFn: FnOnce(&str, u32) -> T2 + Sync,
     T2: Future<Output = Result<FrameIO, Error>>,
 {
-    let ret = h11c_handshake_request(ctx.clone(), queue, create_frames).await;
+    let ret = h11c_handshake_request(ctx.clone(), queue, udp_timeout, create_frames).await;
     // the connection ends here: give its record a terminal state and the reason
     let failure = ret
         .as_ref()
@@ -119,6 +120,7 @@ where
 async fn h11c_handshake_request<FrameFn, T2>(
     ctx: ContextRef,
     queue: Sender<ContextRef>,
+    udp_timeout: u64,
     create_frames: FrameFn,
 ) -> Result<(), Error>
 where
@@ -147,8 +149,10 @@ where
             let channel = request.header("Proxy-Channel", "inline");
             let inline = channel.eq_ignore_ascii_case("inline");
             let source = request.header("Udp-Bind-Source", "");
+            // a UDP association, like those of the socks and reverse listeners: timeouts.udp applies
             ctx_lock
                 .set_target(target)
+                .set_idle_timeout(udp_timeout)
                 .set_callback(FrameChannelCallback { session_id, inline });
             if source.is_empty() {
                 ctx_lock.set_feature(Feature::UdpForward);
